@@ -418,6 +418,24 @@ func runDisputeHistory(t *testing.T, seed int64) (string, map[string]int, string
 			_, _ = w.reporterMS.SelectReporter(w.ctx, &reportertypes.MsgSelectReporter{SelectorAddress: w.accts[a].String(), ReporterAddress: w.accts[0].String()})
 		}
 	}
+	// a selector of reporter 1 at another validator: a fee paid from reporter 1's stake then has two origins
+	bondOrigins := r.Intn(2) == 0
+	if bondOrigins {
+		a := nVals + 3
+		_, _ = w.stakingMS.Delegate(w.ctx, &stakingtypes.MsgDelegate{DelegatorAddress: w.accts[a].String(), ValidatorAddress: w.valOps[2].String(), Amount: w.coin(bi(3000 * loyaPerTRB))})
+		_, _ = w.reporterMS.SelectReporter(w.ctx, &reportertypes.MsgSelectReporter{SelectorAddress: w.accts[a].String(), ReporterAddress: w.accts[1].String()})
+	}
+	jailVal := func(vi int) {
+		v, err := w.s.Stakingkeeper.GetValidator(w.ctx, w.valOps[vi])
+		if err != nil || v.Jailed {
+			return
+		}
+		if cons, err := v.GetConsAddr(); err == nil {
+			res := w.deliver("ValidatorJailToggle", -2, nil, func(ctx sdk.Context) error { return w.s.Stakingkeeper.Jail(ctx, cons) })
+			steps = append(steps, coqStep(res, w.snap(), nil))
+			stats[fmt.Sprintf("%s/%d", res.name, res.result)]++
+		}
+	}
 	init := w.snap()
 	// a report by reporter 0 (and 1) on the scheduled query, aggregated
 	for b := 0; b < 4 && w.halted == ""; b++ {
@@ -445,11 +463,63 @@ func runDisputeHistory(t *testing.T, seed int64) (string, map[string]int, string
 		return fmt.Sprintf("Hist %s %s", init.coq(), clist(steps)), stats, w.halted
 	}
 	rep := pick(r, mine...)
+	// backers of reporter 0 undelegate in two different blocks (two unbonding entries); sometimes their validator is
+	// then slashed for an infraction before those entries (entry balance < initial balance)
+	if r.Intn(2) == 0 {
+		slashIt := r.Intn(2) == 0
+		infraction := w.height
+		var touched []int
+		for k := 0; k < 2 && w.halted == ""; k++ {
+			block(time.Duration(1+r.Intn(3))*time.Second, func() {
+				for _, a := range []int{0, nVals, nVals + 1, nVals + 2} {
+					if k == 0 && r.Intn(2) == 0 {
+						continue
+					}
+					a := a
+					if v, amt, ok := w.someDelegation(a); ok {
+						x := pick(r, bquo(amt, bi(3)), bquo(amt, bi(4)), bi(400_000), bi(1))
+						if x.Sign() <= 0 {
+							continue
+						}
+						res := do("Undelegate", a, nil, func(ctx sdk.Context) error {
+							_, err := w.stakingMS.Undelegate(ctx, &stakingtypes.MsgUndelegate{DelegatorAddress: w.accts[a].String(), ValidatorAddress: v.String(), Amount: w.coin(x)})
+							return err
+						})
+						if res.result == 0 {
+							for vi, vo := range w.valOps {
+								if vo.Equals(v) {
+									touched = append(touched, vi)
+								}
+							}
+						}
+					}
+				}
+			})
+		}
+		if slashIt && len(touched) > 0 && w.halted == "" {
+			block(time.Second, func() {
+				vi := touched[0]
+				if v, err := w.s.Stakingkeeper.GetValidator(w.ctx, w.valOps[vi]); err == nil {
+					if cons, err := v.GetConsAddr(); err == nil {
+						res := w.deliver("ValidatorSlash", -2, nil, func(ctx sdk.Context) error {
+							_, err := w.s.Stakingkeeper.Slash(ctx, cons, infraction, v.ConsensusPower(sdk.DefaultPowerReduction), math.LegacyNewDecWithPrec(int64(pick(r, 1, 5, 10)), 2))
+							return err
+						})
+						steps = append(steps, coqStep(res, w.snap(), nil))
+						stats[fmt.Sprintf("%s/%d", res.name, res.result)]++
+					}
+				}
+			})
+		}
+	}
 	cat := pick(r, disputetypes.Warning, disputetypes.Minor, disputetypes.Major)
 	pct := map[disputetypes.DisputeCategory]int64{disputetypes.Warning: 100, disputetypes.Minor: 20, disputetypes.Major: 1}[cat]
 	full := bquo(bmul(new(big.Int).SetUint64(rep.Power), bi(loyaPerTRB)), bi(pct))
 	proposer := pick(r, 1, nVals+3, w.team)
-	fromBond := proposer == 1 && r.Intn(2) == 0
+	if bondOrigins && r.Intn(3) != 0 {
+		proposer = 1
+	}
+	fromBond := proposer == 1 && (bondOrigins || r.Intn(2) == 0)
 	first := full
 	if r.Intn(3) == 0 {
 		first = bquo(full, bi(int64(2+r.Intn(3))))
@@ -526,6 +596,13 @@ func runDisputeHistory(t *testing.T, seed int64) (string, map[string]int, string
 		}
 		block(pick(r, 12*time.Hour, 24*time.Hour+time.Second, 72*time.Hour+time.Second), nil)
 		block(pick(r, 24*time.Hour, 72*time.Hour+time.Second), nil)
+	}
+	// the validators that backed a fee paid from stake leave the bonded set before the refunds
+	if bondOrigins && fromBond && r.Intn(3) != 0 && w.halted == "" {
+		block(time.Second, func() {
+			jailVal(1)
+			jailVal(2)
+		})
 	}
 	// claims by everybody, twice
 	for pass := 0; pass < 2 && w.halted == ""; pass++ {
